@@ -13,6 +13,7 @@ from pathlib import Path
 from typing import DefaultDict, Iterable
 
 from . import _dsdl_definition, _error, _serializable
+from ._data_type_builder import DataTypeCollisionError
 from ._dsdl import ReadableDSDLFile, PrintOutputHandler, SortedFileList
 from ._dsdl import file_sort as dsdl_file_sort
 from ._dsdl import normalize_paths_argument_to_list
@@ -393,7 +394,7 @@ def _construct_dsdl_definitions_from_files(
     valid_roots: list[Path],
 ) -> SortedFileList[ReadableDSDLFile]:
     """ """
-    output = set()  # type: set[ReadableDSDLFile]
+    output = {}  # type: dict[Path, ReadableDSDLFile]
     for fp in dsdl_files:
         if fp.suffix == DSDL_FILE_SUFFIX_LEGACY:
             _logger.warning(
@@ -402,9 +403,10 @@ def _construct_dsdl_definitions_from_files(
                 DSDL_FILE_SUFFIX,
                 fp,
             )
-        output.add(_dsdl_definition.DSDLDefinition.from_first_in(fp, list(valid_roots)))
+        definition = _dsdl_definition.DSDLDefinition.from_first_in(fp, list(valid_roots))
+        output[definition.file_path] = definition  # The same file may be specified more than once.
 
-    return dsdl_file_sort(output)
+    return dsdl_file_sort(output.values())
 
 
 def _construct_dsdl_definitions_from_namespaces(
@@ -467,6 +469,11 @@ def _ensure_minor_version_compatibility(types: list[_serializable.CompositeType]
             for a in subject_to_check:
                 for b in subject_to_check:
                     if a is not b:
+                        if a.version.minor == b.version.minor:
+                            raise DataTypeCollisionError(
+                                "This definition has the same full name and version as %s" % b.source_file_path,
+                                path=a.source_file_path,
+                            )
                         _ensure_minor_version_compatibility_pairwise(a, b)
 
 
